@@ -327,7 +327,8 @@ func runC13(c runCfg) error {
 						continue // (without the spec-file handler the path is an ordinary request for /{id}: C03's business)
 					}
 					slines = append(slines, fmt.Sprintf("C13 srv %s %d %d", hx(contents[i]), mw, sf))
-					send = append(send, fmt.Sprintf("%s REQ mw=%d,sf=%d GET %s - -", p.Name, mw, sf, hx(base+"/openapi.yaml")))
+					// (three requests through one API value: the third answer is the observation)
+					send = append(send, fmt.Sprintf("%s REQ mw=%d,sf=%d,rep=3 GET %s - -", p.Name, mw, sf, hx(base+"/openapi.yaml")))
 				}
 			}
 		}
